@@ -534,9 +534,10 @@ pub struct Layout {
     /// namespace is another attribute; only the unprefixed `s`, `t`, `r` are the cell's. Private stream, `plain()` = 0.
     /// (C10, seeded C10-m18)
     pub pct_c_foreign_attr: u8,
-    /// chance, custom format id by custom format id (ids ≥ 164), that the id is written with leading zeros
-    /// (`numFmtId="0164"`), with the SAME spelling in its `<numFmt>` and in every `<xf>` that uses it. Decided from
-    /// `seed` and the id alone. `plain()` = 0. (C10, seeded C10-m17)
+    /// chance, occurrence by occurrence, that a number-format id — built-in or custom, in a `<numFmt>` or in an `<xf>`,
+    /// each on its own — is written with leading zeros (`numFmtId="014"`, `"0164"`): leading zeros of an
+    /// `xsd:unsignedInt` are not significant, mixed spellings of one id must agree. Decided from `seed`, the id and the
+    /// place. `plain()` = 0. (C10, seeded C10-m17; /repo fix 6b28a55)
     pub pct_id_zero_pad: u8,
     /// row styles are drawn from `0..row_style_count`; 0 = the length of the book's `cellXfs` (set by `build`)
     pub row_style_count: u32,
@@ -724,10 +725,10 @@ fn arrange(l: &Layout, arng: &mut Rng, mut attrs: Vec<(String, String)>, extras:
     attrs
 }
 
-/// the spelling of a number-format id (`pct_id_zero_pad`): the same wherever the id occurs
-pub fn id_text(l: &Layout, id: u32) -> String {
-    if id >= 164 && l.pct_id_zero_pad > 0 {
-        let mut r = Rng(l.seed ^ 0x1D0_9AD ^ (id as u64).wrapping_mul(0x9E37_79B9_7F4A_7C15));
+/// the spelling of a number-format id at `place` (0 = its `<numFmt>`, k + 1 = the k-th `<xf>`) under `pct_id_zero_pad`
+pub fn id_text(l: &Layout, id: u32, place: u64) -> String {
+    if l.pct_id_zero_pad > 0 {
+        let mut r = Rng(l.seed ^ 0x1D0_9AD ^ (id as u64).wrapping_mul(0x9E37_79B9_7F4A_7C15) ^ place.wrapping_mul(0xD1B5_4A32_D192_ED03));
         r.next();
         if roll(&mut r, l.pct_id_zero_pad) {
             let w = id.to_string().len() + r.range(1, 3) as usize;
@@ -1211,7 +1212,7 @@ pub fn render_styles(book: &XlsxBook, l: &Layout) -> Vec<Ev> {
         let ca = count_attr(&mut srng, book.num_fmts.len());
         out.push(Ev::Start(l.q("numFmts"), ca));
         for (id, code) in &book.num_fmts {
-            let attrs = arrange(l, &mut arng, vec![("numFmtId".into(), id_text(l, *id)), ("formatCode".into(), code.clone())], &[]);
+            let attrs = arrange(l, &mut arng, vec![("numFmtId".into(), id_text(l, *id, 0)), ("formatCode".into(), code.clone())], &[]);
             out.push(Ev::Start(l.q("numFmt"), attrs));
             out.push(end(&l.q("numFmt")));
         }
@@ -1254,11 +1255,11 @@ pub fn render_styles(book: &XlsxBook, l: &Layout) -> Vec<Ev> {
     out.push(end(&l.q("cellStyleXfs")));
     let ca = count_attr(&mut srng, book.cell_xfs.len());
     out.push(Ev::Start(l.q("cellXfs"), ca));
-    for id in &book.cell_xfs {
+    for (xi, id) in book.cell_xfs.iter().enumerate() {
         let mut base: Vec<(String, String)> = vec![];
         // `numFmtId` is optional and defaults to 0: a General entry may come without it and still owns its index
         if !(*id == 0 && roll(&mut srng, l.pct_xf_omit_general)) {
-            base.push(("numFmtId".into(), id_text(l, *id)));
+            base.push(("numFmtId".into(), id_text(l, *id, xi as u64 + 1)));
         }
         let flagged = roll(&mut afrng, l.pct_xf_apply_flag);
         if flagged {
